@@ -53,7 +53,9 @@ br_ecdsa_i31_sign_raw(const br_ec_impl *impl,
 	/*
 	 * If the curve is not supported, then exit with an error.
 	 */
-	if (((impl->supported_curves >> sk->curve) & 1) == 0) {
+	if (sk->curve < 0 || sk->curve >= 32
+		|| ((impl->supported_curves >> sk->curve) & 1) == 0)
+	{
 		return 0;
 	}
 
